@@ -605,7 +605,7 @@ func planEligibleStats(segs []*planSeg, o *mergeplan.Options) (nElig int, budget
 // (Coq: budget_log_bound).  ok=false when not applicable.
 func planLogBound(total, first int64, o *mergeplan.Options) (int64, bool) {
 	g := o.TierGrowth
-	if g < 2 || g != math.Floor(g) || total < 0 {
+	if g <= 1 || total < 0 {
 		return 0, false
 	}
 	M := int64(o.MaxSegmentsPerTier)
@@ -615,11 +615,41 @@ func planLogBound(total, first int64, o *mergeplan.Options) (int64, bool) {
 	if first < 1 {
 		first = 1
 	}
-	lim := new(big.Int).Mul(big.NewInt(M), big.NewInt(first))
+	// effective growth a/b of the staircase: an integer growth G is G/1; a dyadic growth p/q (q = 2, 4, 8)
+	// satisfies floor(t*p/q) >= t*p/q - 1 >= t*(p*first-q)/(q*first) for every t >= first
+	// (budget_log_bound / budget_log_bound_rational in Props/C19.v)
+	var a, b *big.Int
+	if g == math.Floor(g) {
+		a, b = big.NewInt(int64(g)), big.NewInt(1)
+	} else {
+		q := int64(0)
+		for _, d := range []int64{2, 4, 8} {
+			if g*float64(d) == math.Floor(g*float64(d)) {
+				q = d
+				break
+			}
+		}
+		if q == 0 {
+			return 0, false
+		}
+		pn := int64(g * float64(q))
+		a = new(big.Int).Sub(new(big.Int).Mul(big.NewInt(pn), big.NewInt(first)), big.NewInt(q))
+		b = new(big.Int).Mul(big.NewInt(q), big.NewInt(first))
+		if a.Cmp(b) <= 0 {
+			return 0, false // the tiers need not grow at all (e.g. growth 1.5 on a first tier of 1)
+		}
+	}
+	// smallest k with total*b^k < M*first*a^k
+	lhs := big.NewInt(total)
+	rhs := new(big.Int).Mul(big.NewInt(M), big.NewInt(first))
 	k := int64(0)
-	for big.NewInt(total).Cmp(lim) >= 0 {
-		lim.Mul(lim, big.NewInt(int64(g)))
+	for lhs.Cmp(rhs) >= 0 {
+		lhs.Mul(lhs, b)
+		rhs.Mul(rhs, a)
 		k++
+		if k > 4000 {
+			return 0, false
+		}
 	}
 	return M * (k + 1), true
 }
@@ -979,6 +1009,8 @@ func runPlan(o Opts) error {
 	}
 
 	planPhase("geometric histories")
+	// ---- the same plan for the same input, whatever was planned before with the same options value
+	planHistoryIndependence(w, rng, 40*scale)
 	// ---- plans made and executed by a real index.Writer (plan_writer.go)
 	wruns, wbatches := 3, 30
 	if o.Thorough() {
